@@ -365,6 +365,28 @@ def r6_determinism(ctx, rule):
                'config option uuid' % len(par))
 
 
+def r9_coverage_plumbing(ctx, rule):
+    """The coverage the user asked for is the coverage run_trainer gets: program_info['coverage'] = args.coverage, verbatim.
+    0 is a meaningful value (Markov only) and is falsy: `args.coverage or <default>` silently trains with the default instead
+    (seed C06-g)."""
+    q = 'trainer.py::parse_command_line'
+    fn = ctx.fn(q)
+    sets = [s_ for s_ in walk_stmts(fn.body) if isinstance(s_, ast.Assign) and U(s_.targets[0]) == "program_info['coverage']"]
+    if not sets:
+        ctx.unk(rule, q, "no assignment of program_info['coverage'] found")
+        return
+    for s_ in sets:
+        v = s_.value
+        if U(v) in ('args.coverage', 'float(args.coverage)'):
+            ctx.ok(rule, q, "program_info['coverage'] = args.coverage (0.0 reaches the trainer as 0.0)")
+        elif isinstance(v, ast.BoolOp) and isinstance(v.op, ast.Or) or (isinstance(v, ast.IfExp) and U(v.test) in ('args.coverage', 'not args.coverage')):
+            ctx.bad(rule, q, "program_info['coverage'] = %s" % U(v)[:70],
+                    "coverage 0 means 'only the Markov structure'; a truthiness test treats 0.0 like 'not given' and the ruleset is "
+                    "trained with the default coverage instead", None, s_)
+        else:
+            ctx.unk(rule, q, "coverage is derived as %s" % U(v)[:60])
+
+
 def r8_memo(ctx, rule):
     from .common import memo_discipline
     memo_discipline(ctx, rule, ['trainer.py'], RT)
@@ -373,7 +395,7 @@ def r8_memo(ctx, rule):
 def rules(tier):
     return [('C06.R1', r1_relative_frequency), ('C06.R2', r2_all_items_written), ('C06.R3', c07.r6_wipe_before_write),
             ('C06.R4', r4_coverage_algebra), ('C06.R5', r5_supported_only), ('C06.R6', r6_determinism),
-            ('C06.R7', c07.r1b_validate_final_value), ('C06.R8', r8_memo)]
+            ('C06.R7', c07.r1b_validate_final_value), ('C06.R8', r8_memo), ('C06.R9', r9_coverage_plumbing)]
 
 
 META = {
